@@ -137,13 +137,12 @@ def r2(ctx, facts, cfg):
     ctx.ob("C18.R2d", "_process_transit_event:replay-after-trigger", ok,
            "the stored statements are replayed immediately after the triggering statement was dispatched, exactly when its level is at or "
            "above the flush level (flush_level <= level)", fn=f)
-    fb = []
-    for bid, b in g.blocks.items():
-        c = g.term_cond(bid)
-        nc = norm_cmp(c) if c is not None else None
-        if nc and nc[0] == "==" and any(x["k"] == "DeclRefExpr" and x.get("name") == "quill::MacroMetadata::FlushBacktrace" for x in walk(c)):
-            fb.append(bid)
-    ok = bool(fb) and any(any(q in g.reach([tnode(g, fb[0])], avoid_edges=[(fb[0], "F")]) for q in g.positions(p)) and
+    from rules.common import enum_edges, label_matches
+    fb = enum_edges(g, r"MacroMetadata::event$", "FlushBacktrace")
+    def _after(edge):
+        st = [y for (y, l2) in g.succ.get(tnode(g, edge[0]), ()) if label_matches(l2, edge[1])]
+        return set(st) | set(g.reach(st))
+    ok = bool(fb) and any(any(q in _after(fb[0]) for q in g.positions(p)) and
                           not g.exists_path(dpos, g.positions(p)) for p in proc)
     ctx.ob("C18.R2e", "_process_transit_event:flush_backtrace-replays", ok, "a FlushBacktrace event replays the ring", fn=f)
     # replay callbacks dispatch to the sinks
@@ -153,13 +152,13 @@ def r2(ctx, facts, cfg):
            "every replay callback writes the stored statement through the normal dispatch (%d callback(s))" % len(lams), fn=f)
     # R2i: event routing: each arm is entered exactly on its own event
     ev = {}
-    for bid, b in g.blocks.items():
-        c = g.term_cond(bid)
-        nc = norm_cmp(c) if c is not None else None
-        if nc and nc[0] in ("==", "!=") and any(is_call(x, r"MacroMetadata::event$") for x in walk(c)):
-            for x in walk(c):
-                if x["k"] == "DeclRefExpr" and x.get("dk") == "EnumConstant" and x.get("name", "").startswith("quill::MacroMetadata::"):
-                    ev.setdefault(x["name"].split("::")[-1], []).append((bid, "T" if nc[0] == "==" else "F"))
+    en_ = facts.enum("quill::MacroMetadata::Event", cfg)
+    if not en_:
+        raise AnalysisBroken("MacroMetadata::Event not found")
+    for (ename, _v) in en_["enumerators"]:
+        ee = enum_edges(g, r"MacroMetadata::event$", ename)
+        if ee:
+            ev[ename] = ee
     setcap = npos(f, f.calls(BS + "set_capacity$"))
     proc_trigger = [q for p_ in proc for q in g.positions(p_) if g.exists_path(dpos, [q])]
     proc_flush = [q for p_ in proc for q in g.positions(p_) if not g.exists_path(dpos, [q])]
